@@ -19,15 +19,44 @@ MANIFEST = {
             'specs with synthetic task rows in sqlite vs the model (state, cardinality, triggered_by, messages); '
             'stream core (engine model incl. Task.defer / _refresh_task_state vs real engine after every event); '
             'engine monitors: one row per join, a join leaves WAITING only when the required number of inbound rows '
-            'routed to it, starts once (known finding: partial joins re-run by late branches). Reverse workflows: '
-            'monitors only (requires-order and only-needed-tasks read on generated reverse runs).',
-    'note': 'named-lock serialisation of Task.defer across processes is assumed; rows are listed in id order.',
+            'routed to it, starts once (known finding: partial joins re-run by late branches). '
+            'REVERSE WORKFLOWS: model Mistral.Reverse = get_task_requires (task + task-defaults, minus self), the graph '
+            'search from the target (needed set), _is_satisfied_task, _find_next_commands / continue_workflow, '
+            'all_errors_handled, and the run as a transition system over rows + pending deliveries (start with the '
+            'inline completion check, dispatcher, run_task, executor, Task.complete, check_and_complete). Theorems '
+            '(Mistral.Props.C04Rev) for ALL specs, targets and event histories: needed_iff_reach (the needed set is '
+            'exactly the target and what it transitively requires), row_created_only_when_ready + '
+            'requires_order_reachable (every task with an execution has every required task in SUCCESS; '
+            'success_stays), only_needed_reachable, each_once_reachable (at most one execution per task), '
+            'inv_init / inv_step / inv_reachable; outcome: live_inv_reachable, quiescent_outcome_partial / '
+            'started_run_outcome (acyclic requires: with nothing pending the run is ERROR with a failed task or '
+            'SUCCESS with every needed task, the target included, succeeded; never left RUNNING), '
+            'quiescent_error_iff, and quiescent_outcome_full_fails + cyclic_requires_succeeds_without_target (the '
+            'validator accepts cyclic requires; such a run is SUCCESS without running its target: known finding). '
+            'Ties: stream reverse-fn = the REAL ReverseWorkflowController (continue_workflow, '
+            '_find_task_specs_with_satisfied_dependencies, graph search, all_errors_handled, get_task_requires) on '
+            'generated specs with synthetic rows in sqlite vs the model; stream reverse = the real engine under '
+            'random/fifo/lifo schedules vs Mistral.Reverse.step after EVERY event (workflow state, every task row, '
+            'multiset of pending deliveries) + statement monitors on the same traces (row created / task started only '
+            'with all requirements in SUCCESS, only needed tasks, one row and one action per task, final outcome).',
+    'note': 'named-lock serialisation of Task.defer across processes is assumed; rows are listed in id order. '
+            'Reverse model: data flow (inbound context), policies/retries, pause/resume/stop/rerun are outside '
+            'Mistral.Reverse; command ORDER (a DFS post-order that depends on hash order) is not modelled, lists '
+            'denote sets; Acyclic is a hypothesis of the outcome theorem, not something the validator guarantees.',
 }
 RULE = ('stream join: generated direct-workflow graphs (forks, all/one/N joins, on-error/on-complete feeds, '
         'task-defaults, cycles, engine commands) x synthetic task-row sets; non-trivial = a join verdict '
-        'computed from >=1 row; distinct = distinct (graph, rows, join)')
-LEAN_MODULES = ['Mistral.Props.C04']
+        'computed from >=1 row; distinct = distinct (graph, rows, join); '
+        'stream reverse-fn: generated reverse workflows (2-8 tasks, random requires DAGs in shuffled definition '
+        'order, diamonds / chains / wide, task-defaults requires, string and list forms, 20% with a cycle or a '
+        'self-requirement, unknown / missing target) x synthetic row sets (arbitrary states and duplicates, or a '
+        'plausible snapshot of a run) x workflow state x with/without a task execution; non-trivial = rows present '
+        'or a RunTask command produced; stream reverse: the same generator (6% cyclic) x failing-task oracles x '
+        'random/fifo/lifo schedules on the real engine; non-trivial = >=2 task executions or a failing task; '
+        'distinct = distinct (definition, target, oracle, policy, schedule seed)')
+LEAN_MODULES = ['Mistral.Props.C04', 'Mistral.Props.C04Rev']
 TRUSTED = ['translate/states.py (AST read of states.py)',
+           'networkx DiGraph.reverse / dfs_postorder_nodes (the node SET they return is compared with the model)',
            'SQLAlchemy/sqlite row listing; task rows are listed in id order when no sort key is given']
 
 
@@ -39,6 +68,10 @@ def correspond(ctx):
     par.run_parallel(ctx, 'harness.engine_stream', 'run_chunk',
                      [{'n_programs': ctx.n(10, 300), 'props': ['C04'], 'mode': 'plain'}] * 14)
     par.run_parallel(ctx, 'harness.core_stream', 'run_chunk', [{'n_programs': ctx.n(6, 200), 'mode': 'plain'}] * 14)
+    # reverse workflows: function level and engine level (harness/reverse_stream.py)
+    par.run_parallel(ctx, 'harness.reverse_stream', 'run_chunk',
+                     [{'fn_programs': ctx.n(12, 200), 'rows_per_program': ctx.n(8, 12),
+                       'engine_programs': ctx.n(10, 200)}] * 14)
 
 
 def search(ctx):
@@ -47,8 +80,13 @@ def search(ctx):
     par.run_parallel(ctx, 'harness.engine_stream', 'run_chunk',
                      [{'n_programs': 40, 'props': ['C04'], 'mode': 'plain',
                        'gen_kw': {'p_fail': 0.2, 'p_guard': 0.4}}] * 14)
+    # reverse clause: the statement monitors on a wider population of reverse runs
+    par.run_parallel(ctx, 'harness.reverse_stream', 'run_engine_chunk', [{'n_programs': 40, 'p_err': 0.2}] * 14)
 
 
 def replay(ctx, rep):
+    if (rep.get('replay') or {}).get('stream') == 'reverse':
+        from harness import reverse_stream
+        return reverse_stream.replay(ctx, rep)
     from harness import engine_stream
     engine_stream.replay(ctx, rep, ['C04'])
